@@ -612,13 +612,39 @@ theorem restoreAll_complete : ∀ {rs : List Rec} {l : List Transfer}, restoreAl
         exact ⟨x, List.mem_cons_of_mem _ hx, e⟩
     · cases h
 
+theorem mem_pull {id : Ident} : ∀ {l : List Transfer} {t : Transfer} {r : List Transfer}, pull id l = some (t, r) →
+    ∀ x, x ∈ l ↔ x = t ∨ x ∈ r
+  | [], _, _, h, _ => by simp [pull] at h
+  | y :: l, t, r, h, x => by
+    unfold pull at h
+    split at h
+    · cases h; simp
+    · cases hp : pull id l with
+      | none => simp [hp] at h
+      | some q =>
+        obtain ⟨t', r'⟩ := q
+        simp only [hp, Option.map_some, Option.some.injEq, Prod.mk.injEq] at h
+        obtain ⟨rfl, rfl⟩ := h
+        rw [List.mem_cons, mem_pull hp x, List.mem_cons]
+        constructor
+        · rintro (h | h | h)
+          · exact .inr (.inl h)
+          · exact .inl h
+          · exact .inr (.inr h)
+        · rintro (h | h | h)
+          · exact .inr (.inl h)
+          · exact .inl h
+          · exact .inr (.inr h)
+
 /-- whatever order the environment picks, the entries are the same -/
 theorem mem_readOrder : ∀ (order : List Ident) (l : List Transfer) (x : Transfer), x ∈ readOrder order l ↔ x ∈ l
   | [], _, _ => Iff.rfl
   | id :: rest, l, x => by
     unfold readOrder
-    rw [List.mem_append, mem_readOrder rest, List.mem_filter, List.mem_filter]
-    by_cases e : ident x = id <;> simp [e]
+    split
+    · rename_i t r hp
+      rw [List.mem_cons, mem_readOrder rest r x, mem_pull hp x]
+    · exact mem_readOrder rest l x
 
 theorem add_ids_mono (m : Mgr) (t : Transfer) {i : Ident} (hi : i ∈ m.transfers.map ident) :
     i ∈ (m.add t).transfers.map ident := by
@@ -640,13 +666,22 @@ theorem addAll_ids_mono : ∀ (l : List Transfer) (m : Mgr) {i : Ident}, i ∈ m
   | x :: l, m, _, h => addAll_ids_mono l (m.add (repair x).1) (add_ids_mono m _ h)
 
 /-- **nothing in the cache is skipped**: every entry's identity is listed after the loop -/
-theorem addAll_complete : ∀ (l : List Transfer) (m : Mgr) (x : Transfer), x ∈ l →
-    ident x ∈ (m.addAll l).transfers.map ident
-  | y :: l, m, x, hx => by
-    show ident x ∈ (Mgr.addAll (m.add (repair y).1) l).transfers.map ident
-    rcases List.mem_cons.1 hx with rfl | hx
-    · exact addAll_ids_mono l _ (ident_repair x ▸ add_mem_ids m (repair x).1)
-    · exact addAll_complete l _ x hx
+theorem addAll_cons (m : Mgr) (y : Transfer) (l : List Transfer) :
+    m.addAll (y :: l) = (m.add (repair y).1).addAll l := rfl
+
+theorem addAll_complete (l : List Transfer) : ∀ (m : Mgr) (x : Transfer), x ∈ l →
+    ident x ∈ (m.addAll l).transfers.map ident := by
+  induction l with
+  | nil => intro m x hx; cases hx
+  | cons y l ih =>
+    intro m x hx
+    rw [addAll_cons]
+    rcases List.mem_cons.1 hx with e | hx
+    · have h := add_mem_ids m (repair y).1
+      rw [ident_repair] at h
+      rw [e]
+      exact addAll_ids_mono l _ h
+    · exact ih _ x hx
 
 section
 variable {K : Type}
@@ -697,7 +732,9 @@ theorem loadRun_spec : ∀ (l : List Transfer) (s : Sys K),
       intro i hi
       rw [List.map_cons, List.mem_cons] at hi
       rcases hi with rfl | hi
-      · exact .inl (ident_repair x ▸ doAdd_mem_ids s (repair x).1 false)
+      · have h := doAdd_mem_ids s (repair x).1 false
+        rw [ident_repair] at h
+        exact .inl h
       · exact .inr ⟨rest, rfl, hi⟩
 
 /-- what a phase of the loop registers is the repaired image of an entry it was to reach -/
@@ -716,6 +753,36 @@ theorem loadRun_registers : ∀ (l : List Transfer) (s : Sys K) (t : Transfer), 
         rcases mem_add h' with h1 | h1
         · exact .inl h1
         · exact .inr ⟨x, List.mem_cons_self, h1⟩
+
+/-- what is listed plus what the loop has yet to reach: `add()`ing the rest would give the same manager before and
+after a phase of the loop -/
+theorem loadRun_addAll : ∀ (l : List Transfer) (s : Sys K),
+    (loadRun s l).1.mgr.addAll ((loadRun s l).1.loading.getD []) = s.mgr.addAll l
+  | [], _ => rfl
+  | x :: rest, s => by
+    unfold loadRun
+    split
+    · rename_i hl
+      rw [loadRun_addAll rest s, addAll_cons, add_listed]
+      have : s.mgr.transfers.any (fun q => ident q = ident x) = true := hl
+      simpa only [ident_repair] using this
+    · rename_i hl
+      rw [addAll_cons]
+      have hl' : ¬ s.listed (ident (repair x).1) = true := by rwa [ident_repair]
+      simp only [doAdd, if_neg hl', Option.getD_some]
+
+theorem run_replicate_loadStep [DecidableEq K] (H : ByteArray → K) : ∀ (n : Nat) (s : Sys K),
+    (run H s (List.replicate n .loadStep)).mgr.addAll ((run H s (List.replicate n .loadStep)).loading.getD [])
+      = s.mgr.addAll (s.loading.getD [])
+  | 0, _ => rfl
+  | n + 1, s => by
+    have e : run H s (List.replicate (n + 1) .loadStep) = run H (step H s .loadStep).1 (List.replicate n .loadStep) := rfl
+    rw [e, run_replicate_loadStep H n]
+    simp only [step, doLoadStep]
+    split
+    · rfl
+    · rename_i rest hl
+      rw [loadRun_addAll rest s, hl]; rfl
 
 /-- every identity of `ids` is listed, or `read_cache()` is still running and has yet to reach it -/
 def LoadInv (ids : List Ident) (s : Sys K) : Prop :=
